@@ -82,12 +82,15 @@ func checkC04(c *Ctx) {
 	c.Rule("C04/R4", "every UnitMetadataKey built in package benchfmt takes its unit from Tidy's second result")
 	c.Rule("C04/R5", "the .unit filter term is judged against both the base unit and, when present, the written unit, joined by OR")
 
+	c.Rule("C04/R6", "caches on the tidy / unit-match path are keyed by every input of the cached value (tidy cache: the unit string itself; no memo of a unit match may be keyed by one of the two units only)")
+	c.Rule("C04/R7", "in the rewrite loop a denominator token is skipped without leaving the loop and without editing")
 	p := mustLoad(c, loadOpts{}, "./benchfmt", "./benchunit", "./benchproc")
 	c04R1(c, p)
 	c04R2(c, p)
 	c04R3(c, p)
 	c04R4(c, p)
 	c04R5(c, p)
+	c04R6(c, p)
 	if c.Tier == "thorough" {
 		for _, o := range []loadOpts{{env: []string{"GOARCH=386"}}, {env: []string{"GOOS=windows"}}} {
 			p2 := mustLoad(c, o, "./benchfmt", "./benchunit", "./benchproc")
@@ -890,4 +893,94 @@ func hasCallOnMask(b *ssa.BasicBlock) bool {
 		}
 	}
 	return false
+}
+
+func c04R6(c *Ctx, p *Prog) {
+	const R = "C04/R6"
+	sites := findMemoSites(p.Funcs("benchunit", "benchfmt", "benchproc"))
+	unitF := p.Field("benchfmt", "Value", "Unit")
+	origUnitF := p.Field("benchfmt", "Value", "OrigUnit")
+	n := checkMemoSites(c, p, R, sites, func(s memoSite) bool {
+		if strings.Contains(s.Memo, "benchunit.") {
+			return true
+		}
+		// memos in functions that read a measurement's units
+		uses := false
+		eachInstr(s.Fn, func(_ *ssa.BasicBlock, in ssa.Instruction) {
+			if fa, ok := in.(*ssa.FieldAddr); ok {
+				if f, _ := fieldOfAddr(fa); f == unitF || f == origUnitF {
+					uses = true
+				}
+			}
+		})
+		return uses
+	})
+	c.Floor(R, "cache stores on the tidy path", n, 1)
+
+	// R7: denominator tokens are skipped, the loop goes on.
+	denomF := p.Field("benchunit", "parser", "denom")
+	tokF := p.Field("benchunit", "parser", "tok")
+	nLoops := 0
+	for _, fn := range staticReach([]*ssa.Function{p.Fn("benchunit", "Tidy")}, tidyPkg) {
+		for _, lp := range naturalLoops(fn) {
+			// loops whose body compares the token with constants
+			cmp := false
+			for b := range lp.Blocks {
+				for _, in := range b.Instrs {
+					if bo, ok := in.(*ssa.BinOp); ok && bo.Op == token.EQL && isString(bo.X.Type()) {
+						if f, _ := loadOfField(bo.X); f == tokF {
+							cmp = true
+						}
+					}
+				}
+			}
+			if !cmp {
+				continue
+			}
+			nLoops++
+			start := loopBodyStart(lp)
+			key := fnName(fn) + ":denominator-skip"
+			site := p.pos(fn.Pos())
+			if start == nil {
+				c.Undecided("C04/R7", key, site, "loop shape not recognised")
+				continue
+			}
+			outs, why := e6Enumerate(func() *e6Interp { return &e6Interp{} }, start, lp.Header, iterStop(lp, start), 128)
+			if why != "" {
+				c.Undecided("C04/R7", key, site, why)
+				continue
+			}
+			seen := false
+			ok := true
+			detail := ""
+			for _, o := range outs {
+				for k, v := range o.Assign {
+					if o.AtomSyms[k].IsFieldLoad(denomF) && v {
+						seen = true
+						if !(o.Term == "exit" && o.Exit == lp.Header) {
+							ok = false
+							detail = "a denominator token ends the rewrite loop: numerator components after it (a/b*ns) are neither renamed nor scaled"
+						}
+						// loop-carried values unchanged
+						for _, in := range lp.Header.Instrs {
+							if phi, isPhi := in.(*ssa.Phi); isPhi && o.ExitFrom != nil {
+								for i, pr := range lp.Header.Preds {
+									if pr == o.ExitFrom && o.Val(phi.Edges[i]).String() != o.Val(phi).String() {
+										ok = false
+										detail = "a denominator token changes " + phi.Comment
+									}
+								}
+							}
+						}
+					}
+				}
+			}
+			if !seen {
+				c.Undecided("C04/R7", key, site, "the loop never tests the denominator flag")
+				continue
+			}
+			c.Check(ok, "C04/R7", key, site, "denominator tokens are skipped and the loop continues", detail)
+		}
+	}
+	c.Floor("C04/R7", "rewrite loops", nLoops, 1)
 }
